@@ -44,7 +44,13 @@ class TypeScriptSRPAnalyzer(TypeScriptBaseAnalyzer):
         Returns:
             List of all class declaration nodes
         """
-        return self.walk_tree(root_node, "class_declaration")
+        classes = [
+            node
+            for node_type in ("class_declaration", "abstract_class_declaration", "class")
+            for node in self.walk_tree(root_node, node_type)
+            if node.is_named  # "class" is also the type of the keyword token
+        ]
+        return sorted(classes, key=lambda node: node.start_byte)
 
     def analyze_class(self, class_node: Any, source: str, config: SRPConfig) -> dict[str, Any]:
         """Analyze a TypeScript class for SRP metrics.
